@@ -611,12 +611,18 @@ def _wiring(ctx, rep) -> None:
 
     def group_keys(e: ast.AST, depth: int = 0) -> tuple[set, set]:
         keys, other = set(), set()
+        # placement arguments (device= / dtype= of a tensor constructor) do not decide the hyperparameter's value
+        placement = {id(x) for c0 in ast.walk(e) if isinstance(c0, ast.Call) for k in c0.keywords if k.arg in ("device", "dtype") for x in ast.walk(k.value)}
+        placement |= {id(x) for c0 in ast.walk(e) if isinstance(c0, ast.Call) and isinstance(c0.func, ast.Attribute) and c0.func.attr == "to" for a0 in c0.args for x in ast.walk(a0)}
         for n in ast.walk(e):
+            if id(n) in placement:
+                continue
             if isinstance(n, ast.Subscript) and isinstance(n.value, ast.Name) and n.value.id == grp:
                 k = A.const_key(repo, m, n.slice)
                 keys.add(k if k is not None else "?")
-            elif isinstance(n, ast.Attribute) and isinstance(n.value, ast.Name) and n.value.id == "self" and n.attr in ("defaults",):
-                other.add("self.defaults")
+            elif isinstance(n, ast.Attribute) and isinstance(n.value, ast.Name) and n.value.id == "self" and repo.lookup_method(repo.cls(DS), n.attr) is None:
+                # optimizer-wide data (self.defaults, a flag recorded by the constructor): not this group's value
+                other.add(f"self.{n.attr}")
             elif isinstance(n, ast.Name) and isinstance(n.ctx, ast.Load) and depth < 3 and n.id not in (grp, sl, "self", "torch"):
                 defs = A.assignments_to(step.node, n.id)
                 for d in defs:
@@ -644,3 +650,19 @@ def _wiring(ctx, rep) -> None:
         # state_lists / step
         a = A.arg_of(c, impl, "state_lists")
         rep.ob("C01.5", "wiring:state_lists", isinstance(a, ast.Name) and a.id == sl, step.loc(c), "the group step runs on the loop's own state lists")
+    # every helper the group loop calls with a `group` / `state_lists` formal receives the loop's own group / state lists
+    n_sites = 0
+    for loop in [n for n in A.walk_no_nested(step.node) if isinstance(n, ast.For) and isinstance(n.target, ast.Tuple) and any(isinstance(e, ast.Name) and e.id == grp for e in n.target.elts)]:
+        for c in A.calls(loop):
+            for q in sorted(pts.callees(step.qual, c)):
+                callee = repo.funcs.get(q)
+                if callee is None:
+                    continue
+                for formal, want in (("group", grp), ("state_lists", sl)):
+                    if formal in callee.params:
+                        a = A.arg_of(c, callee, formal)
+                        if a is None:
+                            continue
+                        n_sites += 1
+                        rep.ob("C01.5", f"wiring:{formal}-argument:{callee.name}", isinstance(a, ast.Name) and a.id == want, step.loc(c), f"`{callee.name}` is called from the group loop with {formal}=`{ast.unparse(a)}`; it must be the loop's own `{want}` (optimizer-wide defaults or another group's dict disagree with the group whenever a group overrides a value)", sample=callee.name == "_mask_state_lists")
+    rep.floor("C01.5", "helpers called from the group loop with a group / state_lists formal", n_sites, 2)
